@@ -146,6 +146,12 @@ var templateProps = map[string][]string{
 	"TestGovcReplayKeyID":             {"C16"},
 	"TestGovcReplayResetLeak":         {"C13"},
 	"TestGovcReplaySetOps":            {"C03", "C06", "C10"},
+	"TestGovcReplayVersionGate":       {"C07"},
+	"TestGovcReplayKeySelection":      {"C16"},
+	"TestGovcReplaySealSymbols":       {"C09"},
+	"TestGovcReplayBuiltBlockIndependent": {"C08"},
+	"TestGovcReplayNextKeyFromSource": {"C20"},
+	"TestGovcReplayCloneLimits":       {"C11"},
 	"TestGovcReplaySharedCapacity":    {"C08", "C19"},
 	"TestGovcReplayShortSecret":       {"C10"},
 	"TestGovcReplaySiblings":          {"C08", "C19"},
